@@ -697,6 +697,78 @@ def bomb_results(ctx, judge, cases, results):
     ctx.cov["bombs"] = info
 
 
+# --------------------------------------------------------------------------- loose-object bombs: encoding x limit route x payload x read path
+LOOSE_CAP = 64 * 1024
+LOOSE_DEFAULT_CAP = 512 * 1024 * 1024          # dulwich.objects.DEFAULT_LOOSE_OBJECT_SIZE_LIMIT (core.bigFileThreshold default)
+
+
+def loose_bomb_cases(ctx, base):
+    """loose objects in both on-disk encodings (legacy: one zlib stream of header + payload; new-style: binary
+    type/size header + zlib stream of the payload, which dulwich reads but never writes) x the routes by which a
+    size limit reaches the reader (DiskObjectStore(loose_object_size_limit=), DiskObjectStore.from_config with
+    core.bigFileThreshold, Repo() on a config file with core.bigFileThreshold, explicit max_size= of
+    ShaFile.from_path / from_file / Blob.from_path, and the built-in default) x payload just under / far over
+    the limit x every loose read path (store[...], get_raw, `in`, from_path, from_file)."""
+    out = []
+
+    def add(enc, route, path, size, cap, soft=None):
+        out.append({"id": base + len(out), "kind": "loosebomb", "enc": enc, "route": route, "path": path, "size": size, "cap": cap, "soft": soft})
+    for enc in ("legacy", "newstyle"):
+        for size in (LOOSE_CAP - 1024, 48 * 1024 * 1024):
+            for route in ("ctor", "config", "repo"):
+                for path in ("getitem", "get_raw", "contains"):
+                    add(enc, route, path, size, LOOSE_CAP)
+            for path in ("from_path", "from_file", "blob_from_path"):
+                add(enc, "direct", path, size, LOOSE_CAP)
+        # the built-in default: a large but legitimate object is returned whole ...
+        for route, path in (("default", "get_raw"), ("default", "getitem"), ("direct-default", "from_path")):
+            add(enc, route, path, 8 * 1024 * 1024, None)
+        # ... and (thorough) one that inflates past the default is refused without inflating much more than the default
+        if not ctx.quick:
+            for route, path in (("default", "get_raw"), ("direct-default", "from_path")):
+                add(enc, route, path, LOOSE_DEFAULT_CAP + 8 * 1024 * 1024, None, soft=60.0)
+    return out
+
+
+def loose_bomb_results(ctx, judge, cases, results):
+    table = []
+    for c in cases:
+        r = results[c["id"]]
+        cap = c["cap"] if c["cap"] is not None else LOOSE_DEFAULT_CAP
+        over = c["size"] > cap
+        case = f"bomb loose enc={c['enc']} limit={'default' if c['cap'] is None else 'configured'} payload={'over' if over else 'under'}"
+        detail = f"{c['enc']} {c['size']}B limit={c['cap'] or 'default'} via {c['route']} read by {c['path']}"
+        meta = {"site": "dulwich/objects.py:ShaFile._parse_file", "case": case, "cls": "bomb", "mut": detail, "replay": {"case": c}}
+        ctx.count()
+        ctx.nontrivial(("loosebomb", c["enc"], c["route"], c["path"], c["size"]))
+        if r.get("killed"):
+            judge.add_event(dict(KILLED_OBS), dict(meta, ev=r))
+            continue
+        ev = r["event"]
+        peak = r["peak_kb"] * 1024
+        bad, drift = 0, None
+        if over:
+            # refused, and refused before much more than the limit was inflated (cap + 1 bytes are inflated to notice
+            # the overrun, and one copy of that may exist): returned size and peak of traced allocations vs the cap
+            if ev["outcome"] == "ok" or peak > 2 * cap + 8 * 1024 * 1024:
+                bad = 1
+        else:
+            if ev["outcome"] == "ok" and r["returned"] not in (c["size"], -1):
+                bad = 1
+            elif ev["outcome"] == "error":
+                drift = f"a loose object under the limit was refused: {ev.get('exc')}: {ev.get('msg')}"
+        o = judge.obs(dict(ev, pre=[], post=[]), "loose", bad_extra=bad)
+        if c.get("soft"):
+            o["budget"] = int(c["soft"] * 1000)
+        judge.add_event(o, dict(meta, ev=dict(ev, returned=r["returned"], peak_kb=r["peak_kb"]), drift=drift))
+        table.append({"case": detail, "outcome": f"{ev['outcome']}:{ev.get('exc')}", "returned": r["returned"], "peak_kb": r["peak_kb"]})
+    ctx.cov["loose_bombs"] = {"cases": len(cases), "sample": table[:3] + table[len(table) // 2:len(table) // 2 + 3],
+                              "max_peak_kb_over_configured": max([t["peak_kb"] for t, c in zip(table, cases) if c["cap"] and c["size"] > c["cap"]] or [0])}
+    some = next((t for t, c in zip(table, cases) if c["enc"] == "newstyle" and c["cap"] and c["size"] > c["cap"]), None)
+    if some:
+        ctx.sample({"kind": "loose-object bomb", **some})
+
+
 # --------------------------------------------------------------------------- (c) fault injection into the transaction
 TX_PATHS = ["disk.add_pack", "disk.add_thin_pack", "disk.add_pack_data", "recv"]
 TX_KIND = {"disk.add_pack": "add_pack", "disk.add_thin_pack": "add_thin_pack", "disk.add_pack_data": "add_pack_data", "recv": "add_thin_pack"}
@@ -840,8 +912,9 @@ def run(ctx):
         dcases, dmeta, per_art = damage_cases(ctx, 0)
         bcases = [{"id": len(dcases), "kind": "bomb", "which": "pack-entry-overlong"}, {"id": len(dcases) + 1, "kind": "bomb", "which": "loose-overlong"}]
         rcases = tx_ref_cases(len(dcases) + 2)
+        lcases = loose_bomb_cases(ctx, len(dcases) + 2 + len(rcases))
         t0 = time.time()
-        f_pool = tp.submit(run_pool, ctx, rcases + bcases + dcases, "dmg", half)
+        f_pool = tp.submit(run_pool, ctx, rcases + bcases + lcases + dcases, "dmg", half)
         shapes, neg, ex_a = f_pa.result()
         big = random_big_shapes(ctx, ctx.pick(60, 3000))
         acases, ameta = attack_cases(shapes, neg, big)
@@ -854,6 +927,7 @@ def run(ctx):
         nexec, ex_b = damage_results(ctx, judge, dcases, dmeta, per_art, dres)
         ctx.log(f"byte-level damage: {len(dcases)} mutated artefacts, {nexec} reads/ingestions (done {time.time() - t0:.1f}s after start)")
         bomb_results(ctx, judge, bcases, dres)
+        loose_bomb_results(ctx, judge, lcases, dres)
         tx_fault_part(ctx, judge, {c["id"]: (c, dres[c["id"]]) for c in rcases})
         f_ing.result()
         f_git.result()
@@ -895,6 +969,10 @@ def replay(ctx, path):
         ev = r["event"]
         print("visible before:", len(ev["pre"]), "after:", len(ev["post"]), "bad:", ev["bad"], "junk:", ev["junk"])
         tx_add(ctx, judge, c, r, inp)
+    elif c["kind"] == "loosebomb":
+        r = run_pool(ctx, [c], "replay", nworkers=1)
+        print("re-executed:", json.dumps(r[0], indent=1, default=repr)[:2000])
+        loose_bomb_results(ctx, judge, [c], r)
     else:
         r = run_pool(ctx, [c], "replay", nworkers=1)[0]
         print("re-executed:", json.dumps(r, indent=1, default=repr)[:4000])
